@@ -409,6 +409,14 @@ class NameConverter(ast.NodeTransformer):
         node.ifs = [self.visit(cond) for cond in node.ifs]
         return node
 
+    def visit_ClassDef(self, node):
+        # Assignment expressions are not allowed in a comprehension inside a
+        # class body either
+        no_inline, self.no_inline = self.no_inline, True
+        node = self.generic_visit(node)
+        self.no_inline = no_inline
+        return node
+
     def visit_Name(self, node):
         if node.id == self.recurse_sym:
             return ast.copy_location(
